@@ -35,6 +35,10 @@ def _variant_run(v):
             def now(cls, tz=None):
                 return real.now(tz) + shift
         torrent.datetime = Shifted
+    if v.get("prelude"):
+        # this variant's process did other work first (unjudged creations with other piece lengths)
+        from .create_family import run_prelude
+        run_prelude({"prelude": v["prelude"]}, os.path.join(v["cwd"], "..", "pre-" + str(os.getpid())))
     prefix = ["-q"] if v.get("quiet") else []
     if v["route"].startswith("cli") and v["path"].startswith("-"):
         v = dict(v, path="./" + v["path"])      # a relative path that looks like an option must be spelled ./-x on any CLI
@@ -144,6 +148,10 @@ class C08:
         variants.append(variant("progress0", progress=0))
         variants.append(variant("progress2", progress=2))
         variants.append(variant("clock", clock_shift=rng.choice([-400, 3, 9000])))
+        from .create_family import gen_prelude
+        pre = gen_prelude(rng) or gen_prelude(rng) or gen_prelude(rng)
+        if pre:
+            variants.append(variant("after-other-work", prelude=pre))
         if case["route"].startswith("cli"):
             variants.append(variant("quiet", quiet=True))
         results = []
